@@ -110,6 +110,18 @@ CLAIMED["C06"] = {
                  "solver verdict)",
 }
 
+CLAIMED["C14"] = {
+    "text": "bounded symbolic checking: every public decoder / dispatcher (adsb.__all__, commb.__all__, surv, allcall, "
+            "message functions of common, bds.infer, tell) on one fully symbolic 112-bit frame and one fully symbolic "
+            "56-bit frame (pair functions: two frames): every feasible path ends in a value of the documented shape or "
+            "RuntimeError, and a value is returned only inside the documented DF / type code / TC29-subtype domain "
+            "(spec/domains.py). Bounds: quick tier uses concrete CPR fields for the pair decoders; cap17 four "
+            "capability bits at a time.",
+    "design_ref": "DESIGN.md section 5 C14", "note": NOTE,
+    "technique": T_SYMX + "; function summaries for the isXX predicates inside infer/tell; parity field parametrised as "
+                          "parity(data) XOR free variable so CRCs collapse in the GF(2) normal form",
+}
+
 NOT_APPLICABLE = {
     "C20": "transcendental float numerics (numpy **, exp, sqrt, arccos on doubles): no SMT theory reaches the stated "
            "quantities; z3 nlsat answers unknown on the tas<->cas inverse identity; see DESIGN.md section 5 C20",
